@@ -112,3 +112,52 @@ def check_switch_forwards_continue(model: RepoModel, rep, RID: str):
     else:
         rep.holds(RID, key, m.rel, calls[0].lineno, f"break statements of `{S}` join the frontier, the rest is handed to `{outer}`")
     rep.analysed["switch special lists"] = 1
+
+
+def check_value_presence_tests(model: RepoModel, rep, RID: str, rel: str = "core/stmt_states.py", fname: str = "compute_two_states"):
+    """In the constant folder a state's value (and the folded result) may be 0 or False.  A presence test on such a variable by
+    truthiness drops exactly those values: the result set then misses a value the program computes and says nothing about it.
+    Variables bound from `<state>.value` or from the evaluator's result must be tested through util.is_available / `is not None`."""
+    m = model.module(rel)
+    fs = [f for f in m.all_funcs() if f.name == fname]
+    if not fs:
+        raise AnalysisError(f"{rel}: {fname} vanished")
+    f = fs[0]
+    vals = set()
+    for s in walk_no_nested(f.node):
+        if isinstance(s, ast.Assign) and len(s.targets) == 1 and isinstance(s.targets[0], ast.Name):
+            v = s.value
+            if isinstance(v, ast.Attribute) and v.attr == "value":
+                vals.add(s.targets[0].id)
+            if isinstance(v, ast.Call) and (call_name(v) or "").split(".")[-1] in ("strict_eval", "common_eval", "eval"):
+                vals.add(s.targets[0].id)
+    if len(vals) < 2:
+        raise AnalysisError(f"{fname}: operand / result value variables not recognised ({sorted(vals)})")
+    n = 0
+    bad = []
+    for t in walk_no_nested(f.node):
+        if not isinstance(t, (ast.If, ast.While, ast.IfExp)):
+            continue
+        stack = [t.test]
+        while stack:
+            e = stack.pop()
+            if isinstance(e, ast.BoolOp):
+                stack.extend(e.values)
+            elif isinstance(e, ast.UnaryOp) and isinstance(e.op, ast.Not):
+                stack.append(e.operand)
+            elif isinstance(e, ast.Name) and e.id in vals:
+                bad.append((e.id, t))
+            elif isinstance(e, ast.Call) and (call_name(e) or "").split(".")[-1] in ("is_available", "is_empty", "isna", "is_none") and e.args \
+                    and isinstance(e.args[0], ast.Name) and e.args[0].id in vals:
+                n += 1
+    key = f"{f.ref}::presence of a state value is not its truthiness"
+    if bad:
+        v, t = bad[0]
+        rep.violation(RID, key, rel, t.lineno,
+                      f"`{v}` holds a state value (or the folded result) and is tested by truthiness in `{norm(t.test)[:90]}`: the values 0 and False count "
+                      f"as absent, the combination is dropped and the result set misses a value the program computes (u - u with u in {{1, 2}} gave {{-1, 1}})")
+    elif n:
+        rep.holds(RID, key, rel, f.node.lineno, f"{n} presence tests go through the availability helpers; none by truthiness ({sorted(vals)})")
+    else:
+        rep.unknown(RID, key, rel, f.node.lineno, "no presence test on the value variables recognised")
+    rep.analysed["value presence tests in the folder"] = n + len(bad)
